@@ -155,8 +155,10 @@ def fb(ctx):
                                 tr |= set(lab_.split('|'))
                         selfp = tr == {'ConstSelf', 'MutSelf'}
             it = strip(expand(f, c[2][0]))
-            over = not any(re.search(r'Iterator::(rev|skip|take|filter|step_by|chain|map_while|scan|take_while|skip_while|fuse|cycle)$', c_[3]) for c_ in calls_in(it)) and \
-                any(strip(unwrap_all(x_)) in (strip(unwrap_all(F['arguments'])), strip(unwrap_all(expand(f, F['arguments'])))) for x_ in walk(it) if isinstance(x_, tuple) and x_)
+            src_ = it
+            while src_[0] == 'call' and src_[2] and re.search(r'(slice::<impl \[T\]>::iter|::into_iter|::deref|::as_slice|::as_ref|::borrow)$', src_[1]):
+                src_ = strip(src_[2][0])
+            over = strip(unwrap_all(src_)) in (strip(unwrap_all(F['arguments'])), strip(unwrap_all(expand(f, F['arguments']))))
             if selfp and over:
                 return ('receiver', (lab is True) != neg)
             return ('other', 'any() with another predicate or source')
